@@ -76,7 +76,6 @@ WHY_MISSED = {
  "C13-m3": "instants outside the int64-nanosecond range are outside the model (time.Time is an int64 of nanoseconds)",
  "C14-m2": "shortest violating history has length 9; the L=9 scenarios (thorough) do not close in 30 min",
  "C15-m1": "pure encoding/xml behaviour: outside the claimed sub-claims",
- "C12-m5": "needs the real inner completion monitor racing with the relay of a real sub-process (thorough scenario 'sub-process (start -> end inside)' does not close); the quick relay scenario stands the inner instance in",
  "C18-m2": "needs two message-instantiated processes alive at once (thorough scenario 'message flow, 2 throws' does not close in the quick budget)",
 }
 results = {}
